@@ -1,4 +1,4 @@
-// C46 triage: long then() chain completing on an overloaded pool -> inline nesting depth?
+// C46 triage: long then() chain completing on an overloaded pool -> inline nesting depth of ThreadPool::schedule?
 #include <dispenso/future.h>
 #include <dispenso/completion_event.h>
 #include <cstdio>
@@ -7,20 +7,26 @@
 #include <thread>
 static std::atomic<size_t> maxDepthBytes{0};
 static thread_local char* base = nullptr;
+static thread_local int nest = 0;
+static std::atomic<int> maxNest{0};
 int main(int argc, char** argv) {
   int N = atoi(argv[1]);
   dispenso::ThreadPool pool(1, 1);   // poolLoadFactor_ = 1
-  std::atomic<bool> release{false};
+  std::atomic<bool> done{false};
+  std::atomic<int> outstanding{0};
   dispenso::CompletionEvent go;
-  // occupy the single worker and keep workRemaining_ > load factor
-  for (int i = 0; i < 4; ++i) pool.schedule([&]{ while(!release) std::this_thread::yield(); }, dispenso::ForceQueuingTag());
+  // keep workRemaining_ above the load factor with a stream of short force-queued tasks
+  std::thread feeder([&]{ while (!done) { if (outstanding.load() < 8) { outstanding++; pool.schedule([&]{ outstanding--; }, dispenso::ForceQueuingTag()); } else std::this_thread::yield(); } });
   std::vector<dispenso::Future<int>> chain;
-  chain.emplace_back([&]{ go.wait(); char c; base = &c; return 0; }, dispenso::kNewThreadInvoker);
+  chain.emplace_back([&]{ go.wait(); return 0; }, dispenso::kNewThreadInvoker);
   for (int i = 0; i < N; ++i) {
-    chain.push_back(chain.back().then([](dispenso::Future<int>&& f){ char c; size_t d = base ? (size_t)(base - &c) : 0; size_t m = maxDepthBytes.load(); while (d > m && !maxDepthBytes.compare_exchange_weak(m, d)) {} return f.get() + 1; }, pool));
+    chain.push_back(chain.back().then([](dispenso::Future<int>&& f){ int v = f.get() + 1; return v; }, pool));
   }
   go.notify();
+  // poll instead of get(): get() on the tail would run the continuations inline *backwards* through
+  // waitCommon -> run (a different, known, unbounded nesting: see probe_c46_wait_chain.cpp)
+  while (!chain.back().is_ready()) std::this_thread::yield();
   int v = chain.back().get();
-  printf("chain %d -> value %d, max stack depth below first frame: %zu bytes\n", N, v, maxDepthBytes.load());
-  release = true;
+  done = true; feeder.join();
+  printf("chain %d -> value %d completed\n", N, v);
 }
